@@ -35,6 +35,7 @@ MUT13 = GROW + KDEL + ['set_vertex', 'write', 'clear', 'clear_props', 'request',
 MUT13B = ['add_vertex', 'delete_vertex', 'collect_garbage', 'set_vertex', 'write', 'clear', 'h_drop', 'mesh_destroy', 'set_persistent']
 
 MUT13Q = [o for o in MUT13 if o not in ('set_name', 'h_copy', 'enable_deferred', 'pos_handle')]
+ALLK2 = ['touch', 'write', 'mesh_assign', 'add_vertex', 'delete_vertex', 'h_drop', 'get_property', 'property_exists', 'clear', 'mesh_destroy']
 MUT13C = ['add_vertex', 'delete_vertex', 'set_vertex', 'write', 'clear', 'mesh_destroy']
 
 BASE = dict(NM=2, NS=7, NH=3, Kinds=['V'], Types=['int', 'bool'], Names=['', 'a'], MTypes=['poly'],
@@ -63,7 +64,7 @@ CHECKS = {
             cfg(name='lifetimes', Depth=5, SeedIds=[1, 2, 4], Kinds=['V'], Types=['int'], Names=['a'], Overwrite=True, NM=3, NS=9,
                 Ops1=LIFE, Ops2=LIFE, OpsN=['h_drop', 'mesh_destroy', 'clear', 'mesh_assign', 'teardown']),
         ],
-        sim=dict(ops=ALL14, SeedIds=[0, 1, 2, 3, 4, 5, 6, 7], NM=3, NS=10, NH=4, Kinds=['V', 'HE', 'M'], Types=['int', 'bool'],
+        sim=dict(ops=ALL14 + ['touch'], SeedIds=[0, 1, 2, 3, 4, 5, 6, 7], NM=3, NS=10, NH=4, Kinds=['V', 'HE', 'M', 'E', 'F', 'HF', 'C'], Types=['int', 'bool'],
                  Names=['', 'a', 'b'], MTypes=['poly', 'tet', 'hex', 'tpoly', 'ttet', 'thex'], MaxV=3, MaxE=2),
     ),
     'C13': dict(
@@ -77,6 +78,11 @@ CHECKS = {
             # copy construction, assignment and SELF assignment through the defaulted operator=, chains, mutations
             cfg(name='topology-only', NM=3, NS=12, NH=4, Depth=3, SeedIds=[17, 18], Kinds=['V'], Types=['int'], Names=['a'],
                 MTypes=['tpoly'], MaxV=5, MaxE=7, Ops1=COPY + ['mesh_new'], Ops2=COPY + MUT13Q, OpsN=MUT13C),
+            # handles of every entity kind (V E HE F HF C Mesh; shared, private, persistent) held on the target and on the
+            # source across copy construction / same-type, mixed-type and self assignment, observed right after it,
+            # then every element touched through every handle
+            cfg(name='all-kinds', NM=3, NS=14, NH=4, Depth=2, SeedIds=[20, 21, 22, 23, 24], Kinds=['HF', 'E'], Types=['int', 'bool'], Names=['a', 'b'],
+                MTypes=['poly'], MaxV=5, MaxE=7, Ops1=COPY, Ops2=ALLK2, OpsN=[]),
             # chains of copies
             cfg(name='chains', NM=3, NS=12, NH=4, Depth=3, SeedIds=[10, 11, 13, 14], Kinds=['V'], Types=['int'], Names=['a'],
                 MTypes=['poly'], MaxV=5, MaxE=7, Ops1=COPY + ['mesh_new'], Ops2=COPY, OpsN=MUT13B),
@@ -92,14 +98,16 @@ CHECKS = {
                 MTypes=['poly', 'tet', 'hex'], MaxV=5, MaxE=7, Ops1=COPY, Ops2=MUT13, OpsN=MUT13),
             cfg(name='topology-only', NM=3, NS=12, NH=4, Depth=4, SeedIds=[17, 18], Kinds=['V', 'HE'], Types=['int'], Names=['a'],
                 MTypes=['tpoly', 'ttet', 'thex'], MaxV=5, MaxE=7, Ops1=COPY + ['mesh_new'], Ops2=COPY + MUT13, OpsN=['mesh_assign'] + MUT13C),
+            cfg(name='all-kinds', NM=3, NS=14, NH=4, Depth=3, SeedIds=[20, 21, 22, 23, 24], Kinds=['HF', 'E', 'F', 'C'], Types=['int', 'bool'], Names=['a', 'b'],
+                MTypes=['poly'], MaxV=5, MaxE=7, Ops1=COPY, Ops2=ALLK2 + ['request', 'clear_props', 'delete_face', 'delete_edge', 'collect_garbage'], OpsN=ALLK2),
             cfg(name='chains', NM=3, NS=12, NH=4, Depth=4, SeedIds=[10, 11, 12, 13, 14, 15], Kinds=['V'], Types=['int'], Names=['a'],
                 MTypes=['poly', 'tet'], MaxV=5, MaxE=7, Ops1=COPY + ['mesh_new'], Ops2=COPY, OpsN=['mesh_assign'] + MUT13C),
             cfg(name='persistent-positions', NM=3, NS=12, NH=4, Depth=4, SeedIds=[10, 11, 12, 15], Kinds=['V'], Types=['int'], Names=['a'],
                 MTypes=['poly'], MaxV=5, MaxE=7, Ops1=['persist_pos', 'clear', 'pos_handle'], Ops2=COPY + ['persist_pos', 'set_shared', 'set_name', 'pos_handle'],
                 OpsN=['mesh_assign', 'set_vertex', 'add_vertex', 'mesh_destroy', 'persist_pos', 'write']),
         ],
-        sim=dict(ops=COPY + COPY + MUT13 + ['mesh_new', 'h_move', 'clear_all_props', 'persist_pos'], SeedIds=[10, 11, 12, 13, 14, 15, 16, 17, 18], NM=3, NS=14, NH=4,
-                 Kinds=['V', 'HE', 'M'], Types=['int', 'bool'], Names=['', 'a'], MTypes=['poly', 'tet', 'hex', 'tpoly', 'ttet', 'thex'], MaxV=6, MaxE=8),
+        sim=dict(ops=COPY + COPY + MUT13 + ['mesh_new', 'h_move', 'clear_all_props', 'persist_pos', 'touch'], SeedIds=[10, 11, 12, 13, 14, 15, 16, 17, 18, 20, 21, 22, 23, 24], NM=3, NS=14, NH=4,
+                 Kinds=['V', 'HE', 'M', 'E', 'F', 'HF', 'C'], Types=['int', 'bool'], Names=['', 'a'], MTypes=['poly', 'tet', 'hex', 'tpoly', 'ttet', 'thex'], MaxV=6, MaxE=8),
     ),
 }
 
